@@ -68,10 +68,12 @@ type Ctx struct {
 	declIdx map[*types.Func]*ast.FuncDecl
 
 	// identifiers by pinned name (alias.go)
-	funcByCanon map[string]*types.Func
-	typeByCanon map[string]*types.TypeName
-	freshFuncs  map[*types.Func]bool // functions the pinned inventory does not know (extracted helpers, new code)
-	Aliases     []string // renamed identifiers recognised by shape, "pkg.current = pinned name"
+	funcByCanon   map[string]*types.Func
+	typeByCanon   map[string]*types.TypeName
+	freshFuncs    map[*types.Func]bool // functions the pinned inventory does not know (extracted helpers, new code)
+	pinnedCallers map[string][]string  // rel|key -> pinned static callers (for helpers inlined into their caller)
+	Inlined       []string             // pinned functions that are gone and are looked for in their single pinned caller
+	Aliases       []string             // renamed identifiers recognised by shape, "pkg.current = pinned name"
 }
 
 // Load type-checks ./... of cfg.Repo and builds SSA for it. Any load or type
@@ -237,8 +239,29 @@ func (c *Ctx) Pkg(rel string) *packages.Package { return c.ByRel[rel] }
 // Func looks up a package-level function ("Do") or a method ("Plan.collectInto",
 // pointer or value receiver) in library package rel. nil if absent.
 func (c *Ctx) Func(rel, name string) *ssa.Function {
+	return c.funcDepth(rel, name, 0)
+}
+
+func (c *Ctx) funcDepth(rel, name string, depth int) *ssa.Function {
 	if o := c.funcByCanon[rel+"|"+name]; o != nil {
 		if fn := c.Prog.FuncValue(o); fn != nil {
+			return fn
+		}
+	}
+	// A pinned helper that no longer exists under any name has usually been inlined. If the pinned tree had exactly one
+	// caller of it (in its package) and that caller still exists, the helper's code is looked for there.
+	if callers := c.pinnedCallers[rel+"|"+name]; len(callers) == 1 && depth < 3 && callers[0] != name {
+		if fn := c.funcDepth(rel, callers[0], depth+1); fn != nil {
+			note := rel + ":" + name + " -> " + callers[0]
+			seen := false
+			for _, x := range c.Inlined {
+				if x == note {
+					seen = true
+				}
+			}
+			if !seen {
+				c.Inlined = append(c.Inlined, note)
+			}
 			return fn
 		}
 	}
